@@ -704,9 +704,11 @@ def check_container(ctx, env, path, model, tainted, desc, relaxed=None, unreadab
         compare_entry(ctx, e, got[0], desc, allow_user=(relaxed or {}).get(key))
         node = dmp.get("/data/" + key[0])
         f = env.files[e.fidx]
+        # (two measurement files with the same content share one embedded copy)
+        names = [g["path"].name for g in env.files if g["hash"] == key[0]]
         ctx.check(node is not None and node["sha"] == f["sha"] and
-                  pathlib.Path(node["attrs"].get("path", ("str", ""))[1]).name == f["path"].name,
-                  "embedded-data-differs", desc, f"/data/{key[0]} is not the measurement file {f['path'].name}")
+                  pathlib.Path(node["attrs"].get("path", ("str", ""))[1]).name in names,
+                  "embedded-data-differs", desc, f"/data/{key[0]} is not the measurement file {names}")
     extra = [k for k in idx if k not in model and k not in tainted and k not in skip]
     ctx.check(not extra, "unexpected-entry", desc, f"loaded ratings for curves never stored: {extra}")
     check_rated(ctx, env, path, model, set(tainted) | set(skip), desc)
